@@ -357,7 +357,7 @@ def replay(cfg, cex):
     if h == "fault_file":
         # inject the failure into the real accessor by patching the n-th file-system entry point it uses
         p0, p1, new = (bytes(x) for x in inp["payloads"])
-        n, ename = inp["fault"]
+        n, ename = inp["fault"][:2]
         e = getattr(errno, ename)
         with tempfile.TemporaryDirectory() as td:
             acc = fa.FileAccessor(os.path.join(td, "ds"), flat=cfg["flat"], gzip=cfg["gzip"])
